@@ -779,6 +779,7 @@ func traceOracle(evs []event, frames []frameRec, ops []*apiOp) (string, string) 
 }
 
 func evalTrace(c *core.Ctx, line string) *core.Case {
+	defer core.Tick() // liveness for the stall watchdog: traces run for seconds before their cases are added
 	// traces run with the handler logger at debug level (output discarded): every log line of the handler and of its
 	// spoof loops is formatted, so a panicking log call is a panic of the trace
 	arp_spoofer.Logger.SetLevel(fastlog.LevelDebug)
